@@ -9,6 +9,7 @@ std::string gen_name(Rng &rng, const char *prefix, int idx, bool utf8) {
     std::string s = std::string(prefix) + std::to_string(idx);
     if (rng.chance(0.3)) s += "_" + std::string(1, (char)('a' + rng.below(26)));
     if (utf8 && rng.chance(0.4)) { static const char *u[] = {"\xc3\xa9", "\xce\xb1", "\xe6\x97\xa5", "\xc3\xbc", "\xc5\x81", "e\xcc\x81", "u\xcc\x88", "a\xcc\x80", "a\xcc\x85\xcc\x81"}; s += u[rng.below(9)]; }   /* the last one (a, U+0305, U+0301) IS in NFC: the acute is blocked by the overline of the same combining class and must not be composed with the a */   // the last three are NOT in NFC (decomposed): the library must normalise them
+    if (utf8 && rng.chance(0.04)) s = "\xcc\x81\xcc\x96" + s;   // begins with two combining marks in non-canonical order (U+0301 class 230 before U+0316 class 220): NFC swaps them
     if (rng.chance(0.05)) s += std::string(1 + rng.below(40), 'x');
     if (utf8 && rng.chance(0.06)) { s.clear(); int n = 1 + (int)rng.below(6); for (int i = 0; i < n; i++) s += "\xf0\x90\x8c" + std::string(1, (char)(0xb0 + (idx * 7 + i) % 16)); }   // a name made only of 4-byte UTF-8 characters (U+10330..)
     return s;
